@@ -387,28 +387,36 @@ def always_raises(stmts):
 
 
 def isinstance_chains(fn_node):
-    """top-level if/elif chains whose tests are isinstance(...) of one subject -> list of
+    """top-level dispatch chains whose tests are isinstance(...) of one subject, written as if/elif ladders, as
+    consecutive `if isinstance(...): ...; return|raise` statements, or a mix -> list of
     (subject text, [branches], terminal_else_stmts|None, chain node, following stmts)"""
     out = []
     body = fn_node.body
+    used = set()
     for i, n in enumerate(body):
-        if not isinstance(n, ast.If):
+        if not isinstance(n, ast.If) or id(n) in used:
             continue
         subj = _isinstance_subject(n.test)
         if subj is None:
             continue
         branches, cur = [], n
         tail = None
+        j = i
         while True:
             branches.append(cur)
+            used.add(id(cur))
             if len(cur.orelse) == 1 and isinstance(cur.orelse[0], ast.If) and \
                     _isinstance_subject(cur.orelse[0].test) == subj:
                 cur = cur.orelse[0]
+            elif not cur.orelse and always_leaves(cur.body) and j + 1 < len(body) and isinstance(body[j + 1], ast.If) \
+                    and _isinstance_subject(body[j + 1].test) == subj:
+                j += 1
+                cur = body[j]
             else:
                 tail = cur.orelse or None
                 break
         if len(branches) >= 2:
-            out.append((subj, branches, tail, n, body[i + 1:]))
+            out.append((subj, branches, tail, n, body[j + 1:]))
     return out
 
 
